@@ -240,6 +240,23 @@ def cfg0 : Cfg :=
     threshold := 50, links := .preserve, compare := .default, minSize := none, maxSize := none,
     maxErrors := 0, tie := false }
 
+/-- the model's `createTemp` step stands for TWO system calls of `sync_file_with_delta` since repo fix d0ec669:
+    `let _ = fs::remove_file(&temp_dest)` and the creation of the working file.  On every world the pair acts like the single
+    step (a directory at the working-file path survives both, anything else is replaced by the fresh working file), so the
+    observed call `unlink(<x>.sy.tmp)` directly before the creation is a stutter of `createTemp` — which is how the steps
+    stream reads it (`collapse` in tools/steps_stream.py). -/
+theorem createTemp_absorbs_unlink (q : Path) (cid : Nat) (w : SWorld) :
+    (Step.createTemp q cid).apply ((Step.unlink q).apply w) = (Step.createTemp q cid).apply w := by
+  funext x
+  simp only [Step.apply, Step.path, upd]
+  by_cases hx : x = q
+  · subst hx
+    simp only [↓reduceIte]
+    cases h : w x with
+    | none => rfl
+    | some n => cases n <;> rfl
+  · simp [hx]
+
 /-- `C05/user-file-named-like-temp` (known residual finding, any deterministic temp name).  The
     destination holds a large file `x` and the user's own file `x.sy.tmp`; the source has a newer `x`.
     The plan is the single block-delta update of `x`; `TempFresh` is violated (something exists at
